@@ -175,6 +175,8 @@ func main() {
 		streamAlloc(thorough)
 	case "race":
 		streamRace(thorough)
+	case "hist":
+		streamHist(len(filter) > 0 && filter[0] == "rev")
 	case "replay":
 		// replay one op line (without the impl part) given as remaining args
 		replay(os.Args[4:])
